@@ -67,6 +67,7 @@ type VerifConn struct {
 	Source   []string `json:"source"`
 	Fallback []string `json:"fallback"`
 	Flags    []string `json:"flags"`
+	Section  string   `json:"section"`
 }
 
 // VerifConfig carries the settings the harness varies.
@@ -139,7 +140,7 @@ func verifNewDaemon(cfg *VerifConfig, conns []VerifConn, withPeers bool) *VerifI
 	}
 	lmd.lastMainRestart = currentUnixTime()
 	for i := range conns {
-		con := &Connection{Name: conns[i].Name, ID: conns[i].ID, Source: conns[i].Source, Fallback: conns[i].Fallback, Flags: conns[i].Flags}
+		con := &Connection{Name: conns[i].Name, ID: conns[i].ID, Source: conns[i].Source, Fallback: conns[i].Fallback, Flags: conns[i].Flags, Section: conns[i].Section}
 		lmd.Config.Connections = append(lmd.Config.Connections, *con)
 		if !withPeers {
 			continue
